@@ -201,7 +201,7 @@ class FakeDevice:
             except (OSError, RuntimeError):
                 pass
             return
-        data = rep["data"]
+        data = frame if rep.get("echo") else rep["data"]      # "echo": the device bounces the request back
         conn.sent.append(data)
         if data:
             try:
